@@ -249,7 +249,11 @@ impl Case {
 
 const PATTERNS: &[&str] = &["foo", "needle", "ba[rz]", "FOO", "^foo", "o$", "PRE", "NEEDLE", "fo+ ", "\\bbar\\b"];
 const WORDS: &[&str] = &["foo", "bar", "needle", "baz", "Foo", "qux", "FOO", "x", "o"];
-const STATUSES: &[u8] = &[1, 2, 255, 3, 127, 126, 42];
+// 141 = 128 + SIGPIPE (what a shell wrapper reports for a broken pipe), 143
+// and 137 likewise for TERM / KILL; 213 is a marker: the script kills itself
+// with SIGPIPE instead of exiting (see the script renderer)
+const STATUSES: &[u8] = &[1, 2, 255, 3, 127, 126, 42, 141, 143, 213, 137];
+pub const STATUS_KILL_PIPE: u8 = 213;
 
 fn gen_line(t: &mut Tape) -> Bs {
     let words = |t: &mut Tape| {
@@ -555,10 +559,22 @@ fn fault_body(f: &Fault, from_stdin: bool, transform: Transform) -> String {
     let b = f.stderr_bytes;
     let mut s = String::new();
     let err = |n: u32| if n > 0 { format!("    emit_err {n}\n") } else { String::new() };
-    let exit = |st: u8| if st != 0 { format!("    exit {st}\n") } else { String::new() };
+    let exit = |st: u8| {
+        if st == STATUS_KILL_PIPE {
+            "    kill -PIPE $$\n    exit 99\n".to_string()
+        } else if st != 0 {
+            format!("    exit {st}\n")
+        } else {
+            String::new()
+        }
+    };
     if f.point == ExitPoint::BeforeOutput {
         s.push_str(&err(b));
-        s.push_str(&format!("    exit {}\n", f.status));
+        if f.status == STATUS_KILL_PIPE {
+            s.push_str("    kill -PIPE $$\n    exit 99\n");
+        } else {
+            s.push_str(&format!("    exit {}\n", f.status));
+        }
         return s;
     }
     if *f == Fault::benign() && !from_stdin && transform == Transform::Cat {
